@@ -1,3 +1,3 @@
 #!/usr/bin/env bash
 # thorough-only extra leg for C08: reduced workload under Miri
-exec "$(dirname "$0")/miri.sh" C08 "$1" 1/50 8
+exec "$(dirname "$0")/miri.sh" C08 "$1" 1/250 8
